@@ -486,8 +486,17 @@ func (s *Sim) dialAction(p *park) Action {
 	return Action{Name: "dial", Weight: 10, p: p, Run: func() {
 		o := w.X.(netOptser).Net()
 		if op.ctx.Err() != nil {
-			op.err = op.ctx.Err()
 			w.Trouble()
+			// the cancellation may come too late for the dialer: the
+			// connection stands and is returned without error
+			if w.Tape.Flip("dial-late", 300) {
+				op.conn = s.NewConn(o.Pipe)
+				w.Probe("dial_completed_after_cancel")
+				w.Ev("dial", op.conn.id, "%s dial -> conn%d although the context ended meanwhile", p.g, op.conn.id)
+				s.unpark(p)
+				return
+			}
+			op.err = op.ctx.Err()
 			w.Ev("dial", 0, "%s dial -> %v", p.g, op.err)
 			s.unpark(p)
 			return
